@@ -417,7 +417,9 @@ func c07RunCase(ci int, r *vw.Rng, tr *vsTrace, resumeJ, resumeK int) {
 		tr.caseHdr(id)
 	}
 	var s *vsSim
-	if ci < len(c07Corpus) {
+	if os.Getenv("VERIF_C07_WITNESS") != "" {
+		s = c07Witness(id, tr)
+	} else if ci < len(c07Corpus) {
 		s = c07Corpus[ci](id, tr, ctl)
 	} else {
 		cfg := vsRandCfg(r)
@@ -479,6 +481,39 @@ func c07Wrap(k int, id string, tr *vsTrace, ctl *c07Ctl) *vsSim {
 	vsNewSimHook = func(s *vsSim) { s.prop = "C07"; s.hook = ctl.hook }
 	defer func() { vsNewSimHook = nil }()
 	return c02Corpus[k](id, tr)
+}
+
+// c07Witness: the shortest scripted schedule that shows F10 on the main line (used once to produce the ops of the Coq
+// witness in C07/A_Witness.v; run with VERIF_C07_WITNESS=1 and VERIF_CASES=c0).
+func c07Witness(id string, tr *vsTrace) *vsSim {
+	s := vsNewSim("C07", id, vsCorpusCfg(3, 1000, 0), tr)
+	s.step(s.evBootstrap(1, vsAll(3), 5))
+	s.elect(1, 2, 3)
+	s.sync(1, 2, 3) // n3 has index 1..2
+	s.step(s.evPropose(1, []int64{s.freshCmd(), s.freshCmd()}))
+	s.sync(1, 2)
+	s.heartbeat(1, 1, 2)
+	s.snapBegin(1)
+	s.snapDone(1) // leader: snapshot at 4, log trimmed completely
+	s.step(s.evTick(1))
+	for i := 0; i < 10; i++ {
+		p := s.pending(vsBetween(1, 3))
+		if len(p) == 0 {
+			s.step(s.evTick(1))
+			continue
+		}
+		if vsKind(p[0].m) == "InstallSnapshot" {
+			s.stepCrash(s.evDeliver(p[0]), 1, false) // crash right after the snapshot writer's Commit
+			break
+		}
+		s.step(s.evDeliver(p[0]))
+	}
+	s.step(s.evPropose(1, []int64{s.freshCmd()}))
+	for i := 0; i < 6; i++ {
+		s.step(s.evTick(1))
+		s.deliverAll(vsBetween(1, 3), 50)
+	}
+	return s
 }
 
 func TestVerifC07(t *testing.T) {
